@@ -474,6 +474,24 @@ class Weaver:
                 ed.insert(lp["body_open"] + 1, "\n            " + ls["body_start"] + "\n", "W5")
             if ls.get("body_end"):
                 ed.insert(lp["body_close"] - 1, "\n            " + ls["body_end"] + "\n        ", "W5")
+        # W7: a loop the recorded tree did not have has no invariant in the sidecar. The function's own postconditions that do not
+        # mention the result, read over the current state (`final(x)` -> `x`), are woven as AUXILIARY invariants: a loop that
+        # keeps them (a harmless one) then does not cost the postconditions; if one fails, the usual auxiliary re-run judges the
+        # postconditions without it.
+        retn = (spec.get("ret") or "").split(":")[0].strip()
+        for k in spec.get("_new_loops", []):
+            if k >= len(loops) or any(ls.get("ordinal") == k for ls in spec.get("loop", [])):
+                continue
+            autos = []
+            for cl in spec.get("ensures", []):
+                _tag, t = clause_tag(cl)
+                if "final(" not in t or (retn and re.search(r"\b" + re.escape(retn) + r"\b", t)):
+                    continue
+                autos.append(re.sub(r"final\((\w+)\)", r"\1", t))
+            if autos:
+                lp = loops[k]
+                inv = ["        invariant"] + ["            " + self.mark(fid, f"loop{k}.auto_invariant", i, "auxiliary", t) + "," for i, t in enumerate(autos)]
+                ed.insert(lp["body_open"], "\n" + "\n".join(inv) + "\n        ", "W7")
         # D8: guard-continue normal form in `for` loops (Verus has no `continue` in for-loops): a top-level statement
         # `if C { continue; }` becomes `if !(C) { <the rest of the body> }`; only when every `continue` of the loop has that form
         for lp in it.get("loops", []):
